@@ -160,6 +160,24 @@ class AgentExecutingComponent(rpu.AgentComponent):
 
     # --------------------------------------------------------------------------
     #
+    def is_canceled(self, task):
+        '''
+        Tasks which arrive at the executor hold resources.  When such a task is
+        found to be canceled on arrival, it is handed back by the base class -
+        but we also need to make sure that its resources are released.
+        '''
+
+        ret = super().is_canceled(task)
+
+        if ret:
+            self._prof.prof('unschedule_start', uid=task['uid'])
+            self.publish(rpc.AGENT_UNSCHEDULE_PUBSUB, task)
+
+        return ret
+
+
+    # --------------------------------------------------------------------------
+    #
     def get_task(self, tid):
 
         raise NotImplementedError('get_task is not implemented')
